@@ -71,31 +71,31 @@ Proof.
   - rewrite elem_of_cons. naive_solver.
   - rewrite IH, elem_of_cons. naive_solver.
 Qed.
-Lemma gv_and_false v s : foldr andb true (v <$> elements s) = false ↔ ∃ p, p ∈ s ∧ v p = false.
+Lemma gv_and_false (v : val) (s : gset string) : foldr andb true (v <$> elements s) = false ↔ ∃ p, p ∈ s ∧ v p = false.
 Proof. by rewrite fold_andb_false, elem_fmap_elements. Qed.
-Lemma gv_or_true v s : foldr orb false (v <$> elements s) = true ↔ ∃ p, p ∈ s ∧ v p = true.
+Lemma gv_or_true (v : val) (s : gset string) : foldr orb false (v <$> elements s) = true ↔ ∃ p, p ∈ s ∧ v p = true.
 Proof. by rewrite fold_orb_true, elem_fmap_elements. Qed.
-Lemma gv_And v s : gate_val And v s = true ↔ ∀ p, p ∈ s → v p = true.
+Lemma gv_And (v : val) (s : gset string) : gate_val And v s = true ↔ ∀ p, p ∈ s → v p = true.
 Proof.
   unfold gate_val; simpl. destruct (foldr andb true _) eqn:E.
   - split; [|done]. intros _ p Hp. destruct (v p) eqn:Ep; [done|].
     assert (foldr andb true (v <$> elements s) = false) by (apply gv_and_false; eauto). congruence.
   - apply gv_and_false in E as (p & Hp & Ep). split; [done|]. intros H. rewrite H in Ep; done.
 Qed.
-Lemma gv_Or v s : gate_val Or v s = true ↔ ∃ p, p ∈ s ∧ v p = true.
+Lemma gv_Or (v : val) (s : gset string) : gate_val Or v s = true ↔ ∃ p, p ∈ s ∧ v p = true.
 Proof. unfold gate_val; simpl. apply gv_or_true. Qed.
-Lemma gv_Nor v s : gate_val Nor v s = true ↔ ∀ p, p ∈ s → v p = false.
+Lemma gv_Nor (v : val) (s : gset string) : gate_val Nor v s = true ↔ ∀ p, p ∈ s → v p = false.
 Proof.
   unfold gate_val; simpl. rewrite negb_true_iff. destruct (foldr orb false _) eqn:E.
   - apply gv_or_true in E as (p & Hp & Ep). split; [done|]. intros H. rewrite H in Ep; done.
   - split; [|done]. intros _ p Hp. destruct (v p) eqn:Ep; [|done].
     assert (foldr orb false (v <$> elements s) = true) by (apply gv_or_true; eauto). congruence.
 Qed.
-Lemma gv_And2 v a b : gate_val And v {[a; b]} = v a && v b.
+Lemma gv_And2 (v : val) (a b : string) : gate_val And v {[a; b]} = v a && v b.
 Proof. apply eq_true_iff_eq. rewrite gv_And, andb_true_iff. set_solver. Qed.
-Lemma gv_Nor2 v a b : gate_val Nor v {[a; b]} = negb (v a || v b).
+Lemma gv_Nor2 (v : val) (a b : string) : gate_val Nor v {[a; b]} = negb (v a || v b).
 Proof. apply eq_true_iff_eq. rewrite gv_Nor, negb_true_iff, orb_false_iff. set_solver. Qed.
-Lemma gv_single t v p : gate_val t v {[p]} = xorb (g_inv t) (g_op t (v p) (g_unit t)).
+Lemma gv_single t (v : val) (p : string) : gate_val t v {[p]} = xorb (g_inv t) (g_op t (v p) (g_unit t)).
 Proof. unfold gate_val. by rewrite elements_singleton. Qed.
 
 (* ================= Kleene folds (all arities) ================= *)
